@@ -111,7 +111,18 @@ func genRCase(t *rapid.T) RCase {
 		case 10: // connection-specific field set by the handler (legal for a net/http handler)
 			name := pick(t, "cn", rConnNames)
 			val := map[string]string{"Connection": "close", "Keep-Alive": "timeout=5", "Proxy-Connection": "keep-alive", "Transfer-Encoding": "chunked", "Upgrade": "h2c"}[name]
-			c.Ops = append(c.Ops, ROp{Op: "set", K: S(name), V: []S{S(val)}})
+			// through Header().Set (canonical key) or assigned to the map directly under a non-canonical key, as a
+			// handler that relays a backend's lower-case header map does
+			switch rapid.IntRange(0, 3).Draw(t, "cnspelling") {
+			case 0:
+				c.Ops = append(c.Ops, ROp{Op: "set", K: S(name), V: []S{S(val)}})
+			case 1:
+				c.Ops = append(c.Ops, ROp{Op: "raw", K: S(asciiLower(name)), V: []S{S(val)}})
+			case 2:
+				c.Ops = append(c.Ops, ROp{Op: "raw", K: S(strings.ToUpper(name)), V: []S{S(val)}})
+			default:
+				c.Ops = append(c.Ops, ROp{Op: "raw", K: S(strings.ToUpper(name[:1]) + asciiLower(name[1:])), V: []S{S(val)}})
+			}
 		case 11: // Date: explicit or disabled
 			if rapid.Bool().Draw(t, "datenil") {
 				c.Ops = append(c.Ops, ROp{Op: "raw", K: "Date", V: nil})
